@@ -192,7 +192,7 @@ func checkC09(c *Ctx, r *Report) {
 	r.Rule("R09c", "every reflect.Value.String() call is dominated by a Kind() == reflect.String test on the same value", 3)
 	valueStringRule(c, r, "R09c")
 	// R09d: comparators of the sorts that establish an order
-	r.Rule("R09d", "every sort.Slice comparator on the claimed paths has the form key(x[i]) < key(x[j]) with one key function for both sides", 2)
+	r.Rule("R09d", "every sort.Slice comparator on the claimed paths has the form key(x[i]) < key(x[j]) with one key function for both sides, and the key is the element itself or mapKeyString(element): a key function that maps two map keys to one value leaves their order to the runtime", 2)
 	for fn := range claimed {
 		if !c.InRepo(fn) || fn.Blocks == nil {
 			continue
@@ -223,6 +223,13 @@ func checkC09(c *Ctx, r *Report) {
 				form = n.String()
 				if n.op != "bin" || n.name != "<" || strings.ReplaceAll(n.args[0].String(), "$i", "$j") != n.args[1].String() || !strings.Contains(n.args[0].String(), "$i") {
 					okForm = false
+					continue
+				}
+				// the sort key must distinguish different map keys: the element itself, or the frozen
+				// key function mapKeyString (text of a string key; R09c keeps it faithful)
+				if why := injectiveSortKey(n.args[0]); why != "" {
+					okForm = false
+					form += " — " + why
 				}
 			}
 			r.Analysed["sort comparators"]++
@@ -665,4 +672,27 @@ func valueStringRule(c *Ctx, r *Report, rule string) {
 				"reflect.Value.String() is called on a value whose kind is not known to be String: for any other kind (an interface-typed map key as produced by the YAML front-end, say) it returns the constant placeholder \"<T Value>\" instead of the text")
 		}
 	}
+}
+
+// injectiveSortKey: "" if the comparator operand is the slice element itself or mapKeyString of it
+// (whose alternatives are the text of a string key and fmt.Sprint of anything else), otherwise why not.
+func injectiveSortKey(n *nf) string {
+	alts := []*nf{n}
+	if n.op == "alt" {
+		alts = n.args
+	}
+	for _, a := range alts {
+		s := a.String()
+		switch {
+		case a.op == "call" && a.name == "index" && len(a.args) == 2 && a.args[1].String() == "$i":
+			// the element itself
+		case strings.HasPrefix(s, "(reflect.Value).String("+modPath+".chaseValueInterfaces(index(") && strings.HasSuffix(s, ", $i)))"):
+			// mapKeyString, string branch
+		case strings.HasPrefix(s, "fmt.Sprint(") && strings.Contains(s, "(reflect.Value).Interface("+modPath+".chaseValueInterfaces(index("):
+			// mapKeyString, fallback branch for keys that are rejected afterwards
+		default:
+			return "the sort key " + clip(s, 120) + " is not the element itself (or its text): different keys can compare equal, and sort.Slice is not stable"
+		}
+	}
+	return ""
 }
